@@ -20,13 +20,13 @@ theorem C15_params_honoured (spec : FeatSpec) (hv : spec.hasVisName = true) (sk 
     (parseFeature spec ((spec.key, [("vis", some (.str "pub(crate)")), ("name", some (.str n)), (sk, some (.str sn))]) :: fm)).1
       = { enabled := true, item := { vis := some .pubCrate, name := n, structName := some sn }, mode := none } ∧
     (parseFeature spec ((spec.key, [("vis", some (.str "pub(crate)")), ("name", some (.str n)), (sk, some (.str sn))]) :: fm)).2.2 = [] := by
-  simp [parseFeature, smapRemove, getVis, getStrOpt, hv, hs, hm]
+  simp [parseFeature, stepVisName, stepStruct, stepMode, finishParams, smapRemove, getVis, getStrOpt, hv, hs, hm]
 
 /-- defaults: the feature's own name, the enum's visibility (`none`), the default struct name -/
 theorem C15_defaults (spec : FeatSpec) (hv : spec.hasVisName = true) (hm : spec.modeKind = .none) (fm : FeatureMap) :
     (parseFeature spec ((spec.key, []) :: fm)).1 =
       { enabled := true, item := { vis := none, name := spec.key, structName := none }, mode := none } := by
-  cases hs : spec.structKey <;> simp [parseFeature, smapRemove, getVis, getStrOpt, hv, hs, hm]
+  cases hs : spec.structKey <;> simp [parseFeature, stepVisName, stepStruct, stepMode, finishParams, smapRemove, getVis, getStrOpt, hv, hs, hm]
 
 /-- a feature the user did not ask for: `__` name, inherited (private) visibility -/
 theorem C15_not_requested (spec : FeatSpec) :
